@@ -263,21 +263,24 @@ let bld_setup fields =
   let call_of tok = match service_for svcs tok with Some s -> int_of_nat s.ws_call | None -> -1 in
   (w, l, kinds, call_of)
 
-let bld_settle lz st =
-  let st = ref st in
-  for _ = 1 to 4 do
-    st := step lz !st (Turn []);
-    List.iteri (fun g _ ->
-      let continue = ref true in
-      while !continue do
-        match nth_error !st.ws (nat_of_int g) with
-        | Some wk when wk.w_open && wk.w_queue <> [] -> st := step lz !st (E (Pick (nat_of_int g)))
-        | _ -> continue := false
-      done) !st.ws
-  done;
-  !st
-
+(* the oracle itself is the extracted Model/SrvE2E.v ([e2e_step]: the scenario operation, settling, restarts of faulted workers);
+   this function only parses the operation and prints what happened *)
 let poisoned : int list ref = ref []
+
+let parse_e2e (o : string) : e2e_op =
+  let rest = String.sub o 1 (String.length o - 1) in
+  match o.[0] with
+  | 'c' -> XConnect (nat_of_int (int_of_string rest))
+  | 'f' -> XFinish (n_of_int (int_of_string rest))
+  | 'P' -> XPause
+  | 'R' -> XResume
+  | 'E' -> XEmfile (nat_of_int (int_of_string rest))
+  | '+' -> XAdvance (n_of_int (int_of_string rest))
+  | 'K' -> XKill (nat_of_int (int_of_string rest))
+  | 'J' -> (match String.split_on_char ':' rest with
+      | [a; b] -> XKillConnect (nat_of_int (int_of_string a), nat_of_int (int_of_string b))
+      | _ -> failwith ("bad op " ^ o))
+  | _ -> failwith ("bad scenario op " ^ o)
 
 let bld_step lz call_of (st, cid) (o : string) : (state * int) * string =
   if o = "G" then begin
@@ -285,83 +288,38 @@ let bld_step lz call_of (st, cid) (o : string) : (state * int) * string =
        whether any is in progress *)
     let busy = List.exists (fun wk -> wk.w_queue <> [] || wk.w_picked <> []) st.ws in
     ((st, cid), if busy then "G=held" else "G=idle")
-  end else
-  let nev = List.length st.trace in
-  let rest () = String.sub o 1 (String.length o - 1) in
-  let panicked = ref [] in
-  let st', cid' = match o.[0] with
-    | 'c' -> (step lz st (E (Connect (nat_of_int (int_of_string (rest ())), n_of_int (cid + 1)))), cid + 1)
-    | 'E' -> let t = nat_of_int (int_of_string (rest ())) in
-        (step lz (step lz st (E (Inject (t, EOther)))) (E (Connect (t, n_of_int (cid + 1)))), cid + 1)
-    | 'K' ->
-        (* a connection whose service call panics synchronously: the worker that picks it up dies. The (guard, io) argument is
-           dropped by the unwinding, the ServerWorker is dropped (connection queue closes), its arbiter/runtime goes down and
-           drops the other connections in progress on that worker *)
-        let t = nat_of_int (int_of_string (rest ())) in
-        let c = n_of_int (cid + 1) in
-        poisoned := (cid + 1) :: !poisoned;
-        let st1 = bld_settle lz (step lz st (E (Connect (t, c)))) in
-        let g = ref (-1) in
-        List.iteri (fun i wk -> if List.exists (fun cn -> cn.c_id = c) wk.w_picked then g := i) st1.ws;
-        if !g < 0 then failwith ("poisoned connection was not dispatched: " ^ o);
-        let wk = List.nth st1.ws !g in
-        panicked := [int_of_n wk.w_idx];
-        let gn = nat_of_int !g in
-        let st2 = step lz (step lz st1 (E (Finish (gn, c)))) (E (Kill gn)) in
-        (List.fold_left (fun s cn -> if cn.c_id = c then s else step lz s (E (Finish (gn, cn.c_id)))) st2 wk.w_picked, cid + 1)
-    | 'J' ->
-        (* K<t1>, and a second client connects to t2 while the dead worker is still being torn down (its services' destructors
-           run): the connection queue closed first, so the second connection is re-routed like any later one *)
-        let (t1, t2) = match String.split_on_char ':' (rest ()) with
-          | [a; b] -> (nat_of_int (int_of_string a), nat_of_int (int_of_string b)) | _ -> failwith ("bad op " ^ o) in
-        let c = n_of_int (cid + 1) in
-        poisoned := (cid + 1) :: !poisoned;
-        let st1 = bld_settle lz (step lz st (E (Connect (t1, c)))) in
-        let g = ref (-1) in
-        List.iteri (fun i wk -> if List.exists (fun cn -> cn.c_id = c) wk.w_picked then g := i) st1.ws;
-        if !g < 0 then failwith ("poisoned connection was not dispatched: " ^ o);
-        let wk = List.nth st1.ws !g in
-        panicked := [int_of_n wk.w_idx];
-        let gn = nat_of_int !g in
-        let st2 = step lz (step lz st1 (E (Finish (gn, c)))) (E (Kill gn)) in
-        let st3 = List.fold_left (fun s cn -> if cn.c_id = c then s else step lz s (E (Finish (gn, cn.c_id)))) st2 wk.w_picked in
-        (step lz st3 (E (Connect (t2, n_of_int (cid + 2)))), cid + 2)
-    | 'f' -> let c = n_of_int (int_of_string (rest ())) in
-        let g = ref (-1) in
-        List.iteri (fun i wk -> if List.exists (fun cn -> cn.c_id = c) wk.w_picked then g := i) st.ws;
-        if !g < 0 then failwith ("finish of a connection that is not in progress: " ^ o);
-        (step lz st (E (Finish (nat_of_int !g, c))), cid)
-    | 'P' -> (step lz st (E (Command CPause)), cid)
-    | 'R' -> (step lz st (E (Command CResume)), cid)
-    | '+' -> (step lz st (Advance (n_of_int (int_of_string (rest ())))), cid)
-    | _ -> failwith ("bad scenario op " ^ o) in
-  (* settle; ServerInner answers every WorkerFaulted(idx) by starting a replacement with the same index *)
-  let st' = ref (bld_settle lz st') in
-  let handled = ref nev in
-  for _ = 1 to 4 do
-    let evs = take (List.length !st'.trace - !handled) !st'.trace in
-    handled := List.length !st'.trace;
-    let faults = List.filter_map (function EvFaulted idx -> Some idx | _ -> None) (List.rev evs) in
-    if faults <> [] then begin
-      List.iter (fun idx -> st' := step lz !st' (E (Respawn idx))) faults;
-      st' := bld_settle lz !st'
-    end
-  done;
-  let st' = !st' in
-  let evs = take (List.length st'.trace - nev) st'.trace in
-  let served = List.filter_map (function
-    | EvDispatch (c, tok, _, idx, _) when not (List.mem (int_of_n c) !poisoned) -> Some (int_of_n c, call_of tok, int_of_n idx)
-    | _ -> None) evs in
-  let served = List.sort compare served in
-  let dropped = List.sort compare (List.filter_map (function EvDropNoWorker c -> Some (int_of_n c) | _ -> None) evs) in
-  let nw = List.fold_left (fun m wk -> max m (int_of_n wk.w_idx + 1)) 0 st'.ws in
-  let act = List.init nw (fun i -> List.fold_left (fun a wk ->
-    if int_of_n wk.w_idx = i then a + List.length wk.w_queue + List.length wk.w_picked else a) 0 st'.ws) in
-  ((st', cid'), Printf.sprintf "%s=%s/a%s" o
-     (String.concat "," (List.map (fun i -> Printf.sprintf "x@w%d" i) !panicked
-                         @ List.map (fun (c, cl, i) -> Printf.sprintf "%d@%dw%d" c cl i) served
-                         @ List.map (fun c -> Printf.sprintf "%d@drop" c) dropped))
-     (String.concat "." (List.map string_of_int act)))
+  end else begin
+    let nev = List.length st.trace in
+    let op = parse_e2e o in
+    (match op with
+     | XFinish c -> if not (List.exists (fun wk -> List.exists (fun cn -> cn.c_id = c) wk.w_picked) st.ws)
+         then failwith ("finish of a connection that is not in progress: " ^ o)
+     | XKill _ | XKillConnect _ -> poisoned := (cid + 1) :: !poisoned
+     | _ -> ());
+    let (st', next') = e2e_step lz st (n_of_int (cid + 1)) op in
+    let cid' = int_of_n next' - 1 in
+    let evs = take (List.length st'.trace - nev) st'.trace in
+    (match op with
+     | XKill _ | XKillConnect _ ->
+       if not (List.exists (function EvKilled _ -> true | _ -> false) evs) then failwith ("poisoned connection was not dispatched: " ^ o)
+     | _ -> ());
+    let panicked = List.filter_map (function
+      | EvKilled g -> (match nth_error st'.ws g with Some wk -> Some (int_of_n wk.w_idx) | None -> None)
+      | _ -> None) (List.rev evs) in
+    let served = List.filter_map (function
+      | EvDispatch (c, tok, _, idx, _) when not (List.mem (int_of_n c) !poisoned) -> Some (int_of_n c, call_of tok, int_of_n idx)
+      | _ -> None) evs in
+    let served = List.sort compare served in
+    let dropped = List.sort compare (List.filter_map (function EvDropNoWorker c -> Some (int_of_n c) | _ -> None) evs) in
+    let nw = List.fold_left (fun m wk -> max m (int_of_n wk.w_idx + 1)) 0 st'.ws in
+    let act = List.init nw (fun i -> List.fold_left (fun a wk ->
+      if int_of_n wk.w_idx = i then a + List.length wk.w_queue + List.length wk.w_picked else a) 0 st'.ws) in
+    ((st', cid'), Printf.sprintf "%s=%s/a%s" o
+       (String.concat "," (List.map (fun i -> Printf.sprintf "x@w%d" i) panicked
+                           @ List.map (fun (c, cl, i) -> Printf.sprintf "%d@%dw%d" c cl i) served
+                           @ List.map (fun c -> Printf.sprintf "%d@drop" c) dropped))
+       (String.concat "." (List.map string_of_int act)))
+  end
 
 let bld (line : string) : string =
   let fields = fields_of line in
